@@ -333,189 +333,6 @@ func specEval(rs []*route, hasErrs bool, errs []*route, q request) (outcome, map
 	return outcome{x.events, writeStatus(st.status)}, x.tags
 }
 
-// ---------------------------------------------------------------- the known deviation, as the code does it
-//
-// The code hands "the rest of the chain" to Subroute.ServeHTTP, so a subroute with error routes
-// also catches errors raised BEHIND it and then runs the rest of the chain again. codeEval is the
-// same interpreter in continuation-passing form; it is only used to recognise that one class.
-
-type kont func(s state, ev []event) cres
-
-type cres struct {
-	isErr  bool
-	status int
-	s      state
-	events []event
-}
-
-func rec(ev []event, id int, s state) []event {
-	out := make([]event, len(ev), len(ev)+1)
-	copy(out, ev)
-	return append(out, event{id: id, path: paths[s.q.path], err: s.errStr(), repl: s.replStr()})
-}
-
-func cHandlers(hs []*handler, k kont) kont {
-	for i := len(hs) - 1; i >= 0; i-- {
-		h, next := hs[i], k
-		switch h.kind {
-		case 'p':
-			k = func(s state, ev []event) cres { return next(s, rec(ev, h.id, s)) }
-		case 'r':
-			k = func(s state, ev []event) cres { return cres{false, h.arg, s, rec(ev, h.id, s)} }
-		case 'w':
-			k = func(s state, ev []event) cres {
-				ev = rec(ev, h.id, s)
-				s.q.path = h.arg
-				return next(s, ev)
-			}
-		case 'f':
-			k = func(s state, ev []event) cres { return cres{true, h.arg, s, rec(ev, h.id, s)} }
-		case 'x', 'y':
-			k = func(s state, ev []event) cres {
-				isErr, st := s.realHandler(h.kind, h.arg)
-				return cres{isErr, st, s, ev}
-			}
-		case 'i':
-			k = func(s state, ev []event) cres { return cres{true, 0, s, ev} }
-		case 's':
-			k = func(s state, ev []event) cres {
-				r := cRoutes(h.routes, next)(s, ev)
-				if r.isErr && h.hasErrs {
-					s2 := r.s
-					s2.withError(r.status)
-					return cRoutes(h.errs, next)(s2, r.events)
-				}
-				return r
-			}
-		}
-	}
-	return k
-}
-
-func cRoutes(rs []*route, k kont) kont {
-	for i := len(rs) - 1; i >= 0; i-- {
-		r, next := rs[i], k
-		k = func(s state, ev []event) cres {
-			m := applies(r.sets, s)
-			if m.err >= 0 {
-				return cres{true, m.err, s, ev}
-			}
-			if !m.ok {
-				return next(s, ev)
-			}
-			if r.group != 0 {
-				if s.groups[r.group] {
-					return next(s, ev)
-				}
-				s.groups[r.group] = true // one shared map per request
-			}
-			k2 := next
-			if r.terminal {
-				if s.ctxErr >= 0 {
-					k2 = func(s state, ev []event) cres { return cres{false, writeStatus(s.ctxErr), s, ev} }
-				} else {
-					k2 = func(s state, ev []event) cres { return cres{false, -1, s, ev} }
-				}
-			}
-			return cHandlers(r.hs, k2)(s, ev)
-		}
-	}
-	return k
-}
-
-func codeEval(rs []*route, hasErrs bool, errs []*route, q request) outcome {
-	s := state{q: q, groups: map[int]bool{}, ctxErr: -1, repl: -1}
-	r := cRoutes(rs, func(s state, ev []event) cres { return cres{false, -1, s, ev} })(s, nil)
-	if !r.isErr {
-		return outcome{r.events, r.status}
-	}
-	if !hasErrs || len(errs) == 0 {
-		return outcome{r.events, writeStatus(r.status)}
-	}
-	s2 := r.s
-	s2.q.path = q.path
-	s2.withError(r.status)
-	r2 := cRoutes(errs, func(s state, ev []event) cres { return cres{false, writeStatus(s.ctxErr), s, ev} })(s2, r.events)
-	if !r2.isErr {
-		return outcome{r2.events, r2.status}
-	}
-	return outcome{r2.events, writeStatus(r.status)}
-}
-
-// ---------------------------------------------------------------- static exclusion (Spec.lean: treeOk)
-
-func setsCanErr(sets [][]*matcher) bool {
-	for _, s := range sets {
-		for _, m := range s {
-			if m.kind == 'e' || m.kind == 'c' || (m.kind == 'n' && setsCanErr(m.sets)) {
-				return true
-			}
-		}
-	}
-	return false
-}
-
-func hCanFail(h *handler) bool {
-	switch h.kind {
-	case 'f', 'x', 'i':
-		return true
-	case 'y':
-		return h.arg == 1 || h.arg == 2
-	case 's':
-		if h.hasErrs {
-			return rsCanFail(h.errs)
-		}
-		return rsCanFail(h.routes)
-	}
-	return false
-}
-
-func hsCanFail(hs []*handler) bool {
-	for _, h := range hs {
-		if hCanFail(h) {
-			return true
-		}
-	}
-	return false
-}
-
-func rsCanFail(rs []*route) bool {
-	for _, r := range rs {
-		if setsCanErr(r.sets) || hsCanFail(r.hs) {
-			return true
-		}
-	}
-	return false
-}
-
-func hsOk(hs []*handler, ks bool) bool {
-	for i, h := range hs {
-		if h.kind != 's' {
-			continue
-		}
-		k := ks && !hsCanFail(hs[i+1:])
-		if h.hasErrs {
-			if !k || !rsOk(h.routes, k) || !rsOk(h.errs, k) {
-				return false
-			}
-		} else if !rsOk(h.routes, k) {
-			return false
-		}
-	}
-	return true
-}
-
-func rsOk(rs []*route, ks bool) bool {
-	for i, r := range rs {
-		if !hsOk(r.hs, r.terminal || (ks && !rsCanFail(rs[i+1:]))) {
-			return false
-		}
-	}
-	return true
-}
-
-func treeOk(rs, errs []*route) bool { return rsOk(rs, true) && rsOk(errs, true) }
-
 // ---------------------------------------------------------------- comparison
 
 func sameEvents(a, b []event) bool {
